@@ -2,7 +2,11 @@
    bookkeeping denotes EXACTLY the bytes below the highest offset received so far that have not been received: for every
    arrival order and every duplication of the File Data PDUs of a stream cut at a fixed segment length (the sender's
    tiles and its retransmissions of whole gaps, C07/C08), nothing missing is forgotten and nothing received is requested.
-   (Arbitrary overlapping segments are outside: known finding F9.) *)
+   For ARBITRARY File Data (any offsets >= 0, any lengths > 0, overlapping however they like, in any order; the F9 repair
+   made the bookkeeping total on them) the second theorem says: the bookkeeping never raises, the tracker stays
+   well-formed and below the frontier, and NOTHING MISSING IS FORGOTTEN.  There the tracker may over-approximate: data
+   that overlaps the frontier segment (the last in-order segment) is ignored by the bookkeeping, so e.g. after (4,4) (1,5)
+   bytes 1..3 are still tracked, and after (0,1) (0,2) the frontier is still 1; it never under-approximates. *)
 From CFDP Require Import Base LostSeg LostSegSpec Fs Handler Dest HandlerSpec.
 From CFDP.proofs Require Import TrackInvProofs.
 From RecordUpdate Require Import RecordSet.
@@ -31,3 +35,16 @@ Theorem c06_tracker_denotes_missing : forall (seg size : Z) (hist : list (Z * Z)
     fs_d s' = fs_d s /\ log_d s' = log_d s.
 Proof. exact tracker_denotes_missing. Qed.
 Print Assumptions c06_tracker_denotes_missing.
+
+(* arbitrary histories: the bookkeeping is total and never forgets a missing byte *)
+Theorem c06_tracker_never_forgets : forall (hist : list (Z * Z)) (s : dst),
+  Forall (fun fd => 0 <= fst fd /\ 0 < snd fd) hist ->
+  p_tracker (d_p s) = [] -> p_last_start (d_p s) = 0 -> p_last_end (d_p s) = 0 -> p_rcfg (d_p s) <> None ->
+  exists s', handle_all hist s = (s', Ok tt) /\
+    Inv (p_tracker (d_p s')) /\
+    (forall x, den (p_tracker (d_p s')) x -> 0 <= x < p_last_end (d_p s')) /\
+    p_last_end (d_p s') <= extent hist /\
+    (forall x, 0 <= x < p_last_end (d_p s') -> ~ covered hist x -> den (p_tracker (d_p s')) x) /\
+    fs_d s' = fs_d s /\ log_d s' = log_d s.
+Proof. exact tracker_never_forgets. Qed.
+Print Assumptions c06_tracker_never_forgets.
